@@ -15,6 +15,7 @@ class C03(Prop):
     driver = 'drv_C03'
     model = 'C03'
     level = 'proof'
+    search_scale = 2          # the widened search after a break: 2 x the thorough stream per seed
     technique = 'history correspondence + invariant proof'
     level_text = ('Inv (unique names per container, unique ids, creation order, link containers keyed by target) proved to hold '
                   'initially and to be preserved by every step of the repaired model; lookup agreement, count, enumeration and '
